@@ -90,6 +90,13 @@ def family():
         "ac": lambda o, N, Dg: Dg(o["a"]) * o["c"] + Dg(o["c"]) * o["a"],
         "xs": lambda o, N, Dg: (o["a"] + Dg(o["a"])) * (o["s"] + Dg(o["s"])),
     })
+    from sympy.physics.quantum import pauli as _pauli
+
+    F["pauli"] = (("a", "s"), lambda o, N, Dg: N["a"] + N["a"] ** 2 / 9 + R(4, 5) * _pauli.SigmaZ("s"), {
+        "sx": lambda o, N, Dg: _pauli.SigmaX("s") * (o["a"] + Dg(o["a"])),
+        "sy": lambda o, N, Dg: _pauli.SigmaY("s") * sympy.I * (o["a"] - Dg(o["a"])),
+        "sz": lambda o, N, Dg: _pauli.SigmaZ("s") * (o["a"] + Dg(o["a"])) + _pauli.SigmaX("s"),
+    })
     F["ladderfermion"] = (("l", "c"), lambda o, N, Dg: N["l"] + N["l"] ** 2 / 11 + R(9, 4) * N["c"], {
         "lc": lambda o, N, Dg: Dg(o["l"]) * o["c"] + Dg(o["c"]) * o["l"],
         "x": lambda o, N, Dg: o["l"] + Dg(o["l"]),
@@ -109,6 +116,9 @@ def cases(tier, seed):
                 if qk and r == 2 and name in ("holstein", "fermion3", "boson2", "bosonspinfermion") and sub != tuple(tnames[:2]):
                     continue
                 out.append(dict(kind="scalar", model=name, terms=list(sub), order=2 if (qk or len(modes) > 2) else 3, mask=None))
+    # the same Hamiltonians written as one expression in a perturbative symbol
+    for model, terms in (("boson1", ["x", "x2"]), ("spinboson", ["jc"]), ("fermion2", ["hop", "pair"]), ("pauli", ["sx"])):
+        out.append(dict(kind="scalar", model=model, terms=terms, order=2, mask=None, symbol_form=True))
     # operator-valued masks (scalar input)
     for model, terms, mask in (("boson1", ["x", "x2"], "x"), ("boson1", ["x", "x2"], "x2"), ("boson1", ["x", "nx"], "raise-k"),
                                ("boson2", ["hop", "xa"], "hop"), ("spinboson", ["jc", "rabi"], "rabi-counter"),
@@ -285,7 +295,12 @@ def run_scalar(case):
                 if m != n and pred(shift_of_state_pair(sp, m, n)):
                     mask[m, n] = True
         nkwargs["fully_diagonalize"] = {0: mask}
-    outs = block_diagonalize([H0, H1], **kwargs)
+    if case.get("symbol_form"):
+        gsym = sympy.Symbol("g", real=True)
+        outs = block_diagonalize(H0 + gsym * H1, symbols=[gsym], **kwargs)
+        sp.subs = {gsym: 1}  # every order-n element carries the monomial g**n
+    else:
+        outs = block_diagonalize([H0, H1], **kwargs)
     nouts = block_diagonalize([np.diag(levels), h1m], **nkwargs)
     orders = list(range(order + 1))
     lib = {nm: {k: to_matrix(sp, s[0, 0, k]) for k in orders} for nm, s in zip(("H_tilde", "U", "U_adj"), outs)}
